@@ -17,6 +17,7 @@ import (
 	"net"
 	"net/http"
 	"path/filepath"
+	"sort"
 	"strconv"
 	"strings"
 	"sync"
@@ -1131,6 +1132,9 @@ func (c *DefaultCtx) Path(override ...string) string {
 		c.fasthttp.Request.URI().SetPath(c.pathOriginal)
 		// Prettify path
 		c.configDependentPaths()
+		// The new path may be routed in another bucket of the tree: move the scan
+		// position to the last route of that bucket registered before the current one
+		c.rebaseIndexRoute()
 	}
 	return c.app.getString(c.path)
 }
@@ -1857,6 +1861,19 @@ func (c *DefaultCtx) configDependentPaths() {
 			int(c.detectionPath[1])<<8 |
 			int(c.detectionPath[2])
 	}
+}
+
+// rebaseIndexRoute translates the scan position into the bucket selected by the current path
+func (c *DefaultCtx) rebaseIndexRoute() {
+	if c.route == nil || c.indexRoute < 0 || c.methodInt < 0 {
+		return // routing did not start yet
+	}
+	tree, ok := c.app.treeStack[c.methodInt][c.treePathHash]
+	if !ok {
+		tree = c.app.treeStack[c.methodInt][0]
+	}
+	pos := c.route.pos
+	c.indexRoute = sort.Search(len(tree), func(i int) bool { return tree[i].pos > pos }) - 1
 }
 
 // IsProxyTrusted checks trustworthiness of remote ip.
